@@ -27,8 +27,10 @@ CONFIG = {
              "is_bipartitions_updated=False.  nj: binary unrooted trees (3-12 / <= 30 leaves, bi- or trifurcating seed) "
              "with dyadic lengths, internal >= 1/4, leaf >= 0; matrix built from the tree, from our own CSV / dict of "
              "RefTree distances, or through write_csv -> from_csv (delimiters , ; TAB).  upgma: binary rooted trees "
-             "from dyadic node heights strictly increasing toward the root, same routes; upgma_general: arbitrary "
-             "dyadic symmetric matrices / non-ultrametric tree distances against an exact average-linkage reference. "
+             "from dyadic node heights strictly increasing toward the root, except that cherries may have height 0 "
+             "(distance 0 between two distinct taxa; the matrix is then rebuilt with up to 4 rotated taxon orders), "
+             "same routes; upgma_general: arbitrary dyadic symmetric matrices (zero entries included) / non-"
+             "ultrametric tree distances against an exact average-linkage reference. "
              "Exhaustive: every ordered shape with 2-5 (quick) / 2-6 (thorough) leaves x 2 rootings x 2 length "
              "patterns x (no unifurcation | one unifurcation above each node): all pairs, all node pairs and all "
              "non-empty taxon subsets in all three mrca query forms.  Non-trivial = tree with a polytomy or >= 3 "
@@ -682,9 +684,16 @@ def upgma_cases(draw, max_leaves):
         if not s["ch"]:
             height[id(s)] = 0
             return 0
-        h = max(rec(c) for c in s["ch"]) + draw(st.integers(1, 12))
+        below = max(rec(c) for c in s["ch"])
+        if zero_cherries and all(not c["ch"] for c in s["ch"]):
+            # a cherry of two identical samples: distance 0 between two distinct taxa.  Only cherries: a zero-height
+            # cluster of >= 3 taxa would have no unique binary resolution.
+            h = below + draw(st.sampled_from([0, 0, 1, 2, 5]))
+        else:
+            h = below + draw(st.integers(1, 12))
         height[id(s)] = h
         return h
+    zero_cherries = draw(st.booleans())
     rec(spec)
 
     def setlen(s):
@@ -707,11 +716,42 @@ def _check_upgma(ctx, case):
     exp = RefTree.from_spec(spec)
     labels = sorted(exp.leafset())
     dist = table_of(exp)
-    pdm, _ = matrix_by_route(ctx, case["r"], spec, dist, labels)
+    zeros = sum(1 for v in dist.values() if v == 0)
+    # The order in which upgma_tree scans the pairs follows the iteration order of a set of Taxon objects (hashed by
+    # address).  With zero distances present the matrix is therefore built a few times with the taxa created in rotated
+    # order, so that a zero pair is met early, in the middle and late in the scan.
+    reps = min(4, len(labels)) if zeros else 1
+    for rep in range(reps):
+        _check_upgma_once(ctx, case, rotate_route(case["r"], rep * max(1, len(labels) // reps)), spec, exp, labels, dist)
+    n = len(labels)
+    if n >= 5:
+        ctx.nontrivial(["upgma", case])
+    ctx.cls("upgma:taxa:%s" % ("2-4" if n <= 4 else "5-8" if n <= 8 else "9+"))
+    ctx.cls("upgma:zero_distance_pairs:%s" % ("0" if not zeros else "1" if zeros == 1 else "2+"))
+    ctx.sample("upgma", {"newick": shapes.spec_to_newick(spec), "route": case["r"]["route"]})
+    if zeros:
+        ctx.sample("upgma_zero_cherry", {"newick": shapes.spec_to_newick(spec), "route": case["r"]["route"]})
+
+
+def rotate_route(r, k):
+    """The same route with the accession / column order of the taxa rotated by k."""
+    if not k:
+        return r
+    r = dict(r)
+    r["order"] = r["order"][k:] + r["order"][:k]
+    h = dict(r["hist"])
+    kk = k % len(h["order"])
+    h["order"] = h["order"][kk:] + h["order"][:kk]
+    r["hist"] = h
+    return r
+
+
+def _check_upgma_once(ctx, case, r, spec, exp, labels, dist):
+    pdm, _ = matrix_by_route(ctx, r, spec, dist, labels)
     check_matrix_values(ctx, pdm, dist, labels, "C14.upgma.matrix")
     tree = ctx.call("C14.upgma.call", pdm.upgma_tree)
     got, problems = snapshot(tree)
-    tag = "route=%s generating=%s got=%s" % (case["r"]["route"], exp.canon(lengths=True), got.canon(lengths=True))
+    tag = "route=%s generating=%s got=%s" % (r["route"], exp.canon(lengths=True), got.canon(lengths=True))
     ctx.check(not problems, "upgma_tree_well_formed", "C14.upgma.wellformed", lambda: "%s %r" % (tag, problems))
     ctx.check(tree.taxon_namespace is pdm.taxon_namespace, "upgma_tree_uses_matrix_namespace", "C14.upgma.namespace", tag)
     ctx.check(got.rooted_cluster_multiset() == exp.rooted_cluster_multiset(), "upgma_recovers_rooted_clusters", "C14.upgma.topology", tag)
@@ -722,22 +762,17 @@ def _check_upgma(ctx, case):
         if k in gs and k != full:
             ctx.check(gs[k] is not None and close(gs[k], es[k], scale), "upgma_recovers_edge_lengths", "C14.upgma.lengths",
                       lambda: "cluster %s got %r want %r; %s" % (sorted(k), gs[k], es[k], tag))
-    n = len(labels)
-    if n >= 5:
-        ctx.nontrivial(["upgma", case])
-    ctx.cls("upgma:taxa:%s" % ("2-4" if n <= 4 else "5-8" if n <= 8 else "9+"))
-    ctx.sample("upgma", {"newick": shapes.spec_to_newick(spec), "route": case["r"]["route"]})
 
 
 @st.composite
 def upgma_general_cases(draw, max_leaves):
     src = draw(st.sampled_from(["random", "random", "tree"]))
     if src == "tree":
-        sl = draw(shapes.with_lengths(shapes.shapes(min_leaves=3, max_leaves=max_leaves, max_arity=4), patterns=("posdyadic",)))
+        sl = draw(shapes.with_lengths(shapes.shapes(min_leaves=3, max_leaves=max_leaves, max_arity=4), patterns=("posdyadic", "posdyadic", "dyadic")))
         n = shapes.n_leaves(sl["spec"])
         return {"src": src, "spec": sl["spec"], "r": draw(route(n))}
     n = draw(st.integers(3, max_leaves))
-    tri = draw(st.lists(st.integers(1, 400), min_size=n * (n - 1) // 2, max_size=n * (n - 1) // 2))
+    tri = draw(st.lists(st.one_of(st.integers(1, 400), st.integers(1, 400), st.integers(0, 400)), min_size=n * (n - 1) // 2, max_size=n * (n - 1) // 2))
     return {"src": src, "n": n, "tri": tri, "r": draw(route(n))}
 
 
@@ -789,17 +824,30 @@ def _check_upgma_general(ctx, case):
         for k, (a, b) in enumerate(itertools.combinations(labels, 2)):
             dist[frozenset([a, b])] = case["tri"][k] / 8.0
         labels.sort()
-    pdm, _ = matrix_by_route(ctx, case["r"], spec, dist, labels)
+    heights, tie = ref_upgma(labels, dist)
+    zeros = sum(1 for v in dist.values() if v == 0)
+    reps = min(4, len(labels)) if zeros and not tie else 1
+    for rep in range(reps):
+        _check_upgma_general_once(ctx, case, rotate_route(case["r"], rep * max(1, len(labels) // reps)), spec, labels, dist, heights, tie)
+    ctx.cls("upgma_general:%s:%s" % (case["src"], "tie" if tie else "no_tie"))
+    if zeros:
+        ctx.cls("upgma_general:zero_entries:%s" % ("tie" if tie else "no_tie"))
+    if len(labels) >= 5:
+        ctx.nontrivial(["upgma_general", case])
+    ctx.sample("upgma_general", {"src": case["src"], "table": sorted((sorted(k), v) for k, v in dist.items())[:10]})
+
+
+def _check_upgma_general_once(ctx, case, r, spec, labels, dist, heights, tie):
+    pdm, _ = matrix_by_route(ctx, r, spec, dist, labels)
     check_matrix_values(ctx, pdm, dist, labels, "C14.upgma_general.matrix")
     tree = ctx.call("C14.upgma.call", pdm.upgma_tree)
     got, problems = snapshot(tree)
-    tag = "src=%s route=%s table=%s got=%s" % (case["src"], case["r"]["route"],
+    tag = "src=%s route=%s table=%s got=%s" % (case["src"], r["route"],
                                               sorted((sorted(k), v) for k, v in dist.items()), got.canon(lengths=True))
     ctx.check(not problems, "upgma_tree_well_formed", "C14.upgma.wellformed", lambda: "%s %r" % (tag, problems))
     ctx.check(sorted(str(got.taxon[i]) for i in got.leaves()) == labels, "upgma_leaves_are_the_matrix_taxa", "C14.upgma.leafset", tag)
     scale = max(dist.values())
     cl = got.clusters()
-    heights, tie = ref_upgma(labels, dist)
     for i in got.internals():
         if not ctx.check(len(got.children[i]) == 2, "upgma_tree_is_binary", "C14.upgma.binary", tag):
             return
@@ -817,10 +865,6 @@ def _check_upgma_general(ctx, case):
                 h = got.path(lf, i)[0]
                 ctx.check(close(h, want, scale), "upgma_join_height_is_half_the_mean_cross_distance", "C14.upgma.average_linkage",
                           lambda: "join over %s: height from %s is %r, want %r; %s" % (sorted(cl[i]), got.taxon[lf], h, want, tag))
-    ctx.cls("upgma_general:%s:%s" % (case["src"], "tie" if tie else "no_tie"))
-    if len(labels) >= 5:
-        ctx.nontrivial(["upgma_general", case])
-    ctx.sample("upgma_general", {"src": case["src"], "table": sorted((sorted(k), v) for k, v in dist.items())[:10]})
 
 
 # ---------------------------------------------------------------------------
